@@ -12,6 +12,7 @@
     Prov     : {"chain": null|"first"|"last", "skip"?, "only"?, "map": [..], "trim"?, "style"?: {"v": null|name},
                 "as_list"?, "omit_default"?, "extra_in"?, "extra_out"?}    (absent = Omitted())
 -/
+import AdaptixModel.Layout.NameStyle
 import AdaptixModel.Protocol
 import AdaptixModel.Layout.ModelDump
 import AdaptixModel.Layout.LocPred
@@ -176,7 +177,32 @@ def decProv (j : Json) : Except String OverlayProv := do
   }
   return { chain, ov }
 
-/-- `{"styles": {style: {name: converted}}}`; a missing entry is visible in the result -/
+/-- `NameStyle` members by name -/
+def styleByMember : String → Option Adaptix.Layout.NameStyle.Style
+  | "LOWER_SNAKE" => some .lowerSnake | "CAMEL_SNAKE" => some .camelSnake
+  | "PASCAL_SNAKE" => some .pascalSnake | "UPPER_SNAKE" => some .upperSnake
+  | "LOWER_KEBAB" => some .lowerKebab | "CAMEL_KEBAB" => some .camelKebab
+  | "PASCAL_KEBAB" => some .pascalKebab | "UPPER_KEBAB" => some .upperKebab
+  | "LOWER" => some .lower | "CAMEL" => some .camel | "PASCAL" => some .pascal | "UPPER" => some .upper
+  | "LOWER_DOT" => some .lowerDot | "CAMEL_DOT" => some .camelDot
+  | "PASCAL_DOT" => some .pascalDot | "UPPER_DOT" => some .upperDot
+  | _ => none
+
+/-- the modelled conversion (`Layout/NameStyle.lean`) of an ASCII name; `none` outside the model -/
+def modelStyle (st name : String) : Option String :=
+  match styleByMember st with
+  | none => none
+  | some s =>
+    let cs := name.toList.map Char.toNat
+    if cs.all (fun c => decide (c < 128)) then
+      match Adaptix.Layout.NameStyle.convert cs s with
+      | .ok r => some (String.ofList (r.map Char.ofNat))
+      | _ => none
+    else none
+
+/-- the style conversion used by the layout model: the modelled `convert_snake_style` for ASCII
+    names; for names outside that model the table `{"styles": {style: {name: converted}}}` sent
+    by the harness; a missing entry is visible in the result -/
 def decStyles (j : Json) : Except String (Style → String → String) := do
   let tbl ← match optField j "styles" with
     | some (.obj kvs) => kvs.toList.mapM fun (st, m) =>
@@ -189,9 +215,12 @@ def decStyles (j : Json) : Except String (Style → String → String) := do
         | _ => .error "bad style table"
     | _ => pure []
   return fun st name =>
-    match tbl.lookup st with
-    | some nm => (nm.lookup name).getD s!"<nostyle:{name}>"
-    | none => s!"<nostyle:{name}>"
+    match modelStyle st name with
+    | some r => r
+    | none =>
+      match tbl.lookup st with
+      | some nm => (nm.lookup name).getD s!"<nostyle:{name}>"
+      | none => s!"<nostyle:{name}>"
 
 /-! ### encoding of crowns -/
 
